@@ -56,7 +56,7 @@ def generate(rng, tier):
         cs.append(Case("cli.verify %s %s | %s" % (base, m2.hex(), a.hex()), kind + "-verify", no_panic))
     # runs of refused reconnect attempts past 2^8 (thorough: past 2^16) on one session: only the NUMBER of earlier failures differs
     from props.c05 import refusal_run_case
-    for run in ([256, 300] if tier == "quick" else [256, 300, 65536, 66000]):
+    for run in ([256, 300] if tier == "quick" else [256, 300, 65536]):
         c = refusal_run_case(rng, run, 2)
         cs.append(Case(c.line, "reconnect-run-of-%d-refusals" % run, no_panic))
     # reconnect garbage
